@@ -24,3 +24,18 @@ package main
 //@     invariant arr(resp.Results) == nil || (!(arr(resp.Results) in old($alloc)) && allocated(arr(resp.Results)))
 //@     invariant forall j idx(resp.Results) :: resp.Results[j] != nil && !(resp.Results[j] in old($alloc)) && allocated(resp.Results[j])
 //@        && resp.Results[j].QueryId == (req.Queries[j].Id != 0 ? req.Queries[j].Id : j + 1)
+
+// ---- create.go (C19)
+
+// the rune mapping of normalizeHeader: a..z are kept, everything else becomes '_'
+//@ func [C19] normalizeHeader$1(r) (result)
+//@   ensures [C19] keeps_a_to_z: 97 <= r && r <= 122 ==> result == r
+//@   ensures [C19] everything_else_is_underscore: !(97 <= r && r <= 122) ==> result == 95
+
+//@ func [C19] normalizeHeader(header) (result)
+//@   ensures [C19] len(result) == len(header)
+//@   ensures [C19] naming_rule: forall i idx(result) :: result[i] == mapstr(fnref("normalizeHeader$1"), lower(header[i]))
+//@   loop 1
+//@     invariant len(newHeader) == $i && 0 <= $i && $i <= len(header) && cap(newHeader) == len(header)
+//@     invariant arr(newHeader) != nil && !(arr(newHeader) in old($alloc)) && allocated(arr(newHeader))
+//@     invariant forall i idx(newHeader) :: newHeader[i] == mapstr(fnref("normalizeHeader$1"), lower(header[i]))
